@@ -5,6 +5,7 @@
 #   struct Msg  { 1: string content, 2: i32 n }
 #   struct Resp { 1: string content, 2: list<string> tags }
 #   exception SvcError { 1: string message, 2: i32 code }
+#   exception AuthError { 1: string reason }
 #
 from thrift.Thrift import TType
 from thrift.protocol.TBase import TBase, TExceptionBase
@@ -58,5 +59,21 @@ SvcError.thrift_spec = (
 )
 
 
+class AuthError(TExceptionBase):
+  __slots__ = ('reason',)
+
+  def __init__(self, reason=None):
+    self.reason = reason
+
+  def __str__(self):
+    return repr(self)
+
+
+AuthError.thrift_spec = (
+  None,
+  (1, TType.STRING, 'reason', 'UTF8', None,),
+)
+
+
 from thrift.TRecursive import fix_spec
-fix_spec([Msg, Resp, SvcError])
+fix_spec([Msg, Resp, SvcError, AuthError])
